@@ -24,9 +24,13 @@ func spaces(thorough bool) []chanmc.Space {
 		for _, noDLP := range []bool{false, true} {
 			openerB := (ti%2 == 1) != noDLP
 			// one HTLC each way, every cut point, one cut: full interleaving
-			out = append(out, chanmc.Space{Dev: -1, P: chanmc.Params{Type: typ, OpenerB: openerB, MaxCuts: 1, NoDLP: noDLP, Script: []chanmc.Intent{
-				{By: 0, Amt: sat(th[1]-1, 999), Fate: "settle"}, {By: 1, Amt: sat(30000, 0), Fate: "fail"},
-			}}})
+			sc := []chanmc.Intent{{By: 0, Amt: sat(th[1]-1, 999), Fate: "settle"}, {By: 1, Amt: sat(30000, 0), Fate: "fail"}}
+			if noDLP {
+				// two HTLCs in the same direction, both settled: pipelined
+				// removals overlapping with the other side's signature
+				sc = []chanmc.Intent{{By: 1, Amt: sat(30000, 0), Fate: "settle"}, {By: 1, Amt: sat(th[3], 1), Fate: "settle"}}
+			}
+			out = append(out, chanmc.Space{Dev: -1, P: chanmc.Params{Type: typ, OpenerB: openerB, MaxCuts: 1, NoDLP: noDLP, Script: sc}})
 		}
 		// one HTLC, two cuts anywhere (incl. during resynchronisation), full interleaving
 		out = append(out, chanmc.Space{Dev: -1, P: chanmc.Params{Type: typ, OpenerB: ti%2 == 0, MaxCuts: 2, Fees: []int64{6500}, Script: []chanmc.Intent{
@@ -44,7 +48,7 @@ func TestC03(t *testing.T) {
 		}
 		os.Exit(run.Finish(map[string]any{"evaluations": 1, "distinct_nontrivial": 2, "states": 1, "transitions": 1, "traces_validated_against_impl": 1, "samples": []any{rp}}))
 	}
-	budget := 170 * time.Second
+	budget := 300 * time.Second
 	if run.Thorough() {
 		budget = 35 * time.Minute
 	}
